@@ -63,6 +63,26 @@ def gen_case(rng):
                 G.gen_call(rng, reg, G.gen_enter(rng, tgt, 0.03), w_required=rng.choice([0.0, 0.0, 0.0, 0.3])))
     if rng.random() < 0.3:
       body.append({'op': 'getb', 'sel': reg['_selector'], 'scope': tgt, 'inherit': rng.random() < 0.7})
+  if rng.random() < 0.2:
+    # a marker passed positionally for an earlier parameter and a real value, also positionally, for a later one
+    # that has an applicable binding too: the caller's value must still win
+    cand = [r for r in regs if len(G.sig_names(r['sig'], r['_kind'])[0]) >= 2 and not r['allow'] and not r['deny']]
+    if cand:
+      reg = rng.choice(cand)
+      pos, _ = G.sig_names(reg['sig'], reg['_kind'])
+      k = rng.randint(1, len(pos) - 1)
+      tgt = rng.choice(scopes)
+      for nm in pos[:k + 1]:
+        if nm == pos[k] or rng.random() < 0.85:
+          body.append({'op': 'bind', 'scope': '/'.join(tgt[:rng.randint(0, len(tgt))]), 'sel': reg['_selector'],
+                       'arg': nm, 'val': G.gen_value(rng, 0), '_form': 'tuple', 'block': False})
+      call = G.gen_call(rng, reg, G.gen_enter(rng, tgt, 0.0))
+      call['args'] = call['args'][:1 if reg['_kind'] != 'fn' else 0] + \
+          [G.REQ if i < k and rng.random() < 0.7 else G.caller_value(rng) for i in range(k + 1)]
+      call['kwargs'] = [kv for kv in call['kwargs'] if kv[0] not in pos[:k + 1]]
+      for key in ('_bad_enter', '_left_by'):
+        call.pop(key, None)
+      body.append(call)
   ops += body
   ops.append({'op': 'config'})
   if rng.random() < 0.25:
